@@ -57,6 +57,7 @@ ENCODES_PIPE = [
     "synrbl.SynChemImputer.curate_oxidation:CurationOxidation.process_ox_template",
     "synrbl.SynChemImputer.curate_reduction:CurationReduction.process_reduct_template",
     "synrbl.confidence_prediction:ConfidencePredictor.predict",
+    "synrbl.SynAnalysis.analysis_utils:count_boundary_atoms_products_and_calculate_changes",
 ]
 
 STUBS_PIPE = [
@@ -67,7 +68,7 @@ STUBS_PIPE = [
     "Chem.MolFromSmiles/CanonSmiles in can_parse, get_and_validate_smiles, label_reactions -> validity lookup; a mixture is valid iff every component is",
     "ensemble_mcs / find_graph_dict / build_compounds / merge / MoleculeStandardizer -> outcome stubs: search fails, graph analysis fails, empty compound set, merge raises, or merge returns one complete-molecule token of arbitrary composition",
     "find_functional_reactivity -> any of 8 functional-group outcomes (one per distinct first template of the curation tables + none + unlisted group); count_radical_atoms -> number of '[H]'/'[O]' tokens",
-    "xgboost model, feature extraction, numpy rounding -> arbitrary confidence in [0,1]; threshold passed as a comparable object that formats to a placeholder",
+    "xgboost model, numpy rounding, calculate_chemical_properties -> arbitrary confidence per reaction (and a different value if the real count_boundary_atoms_products_and_calculate_changes hands the model another row's feature values); threshold passed as a comparable object that formats to a placeholder",
     "rule database restricted to the shipped records for [H], O, [O], [H+], [Na+], [Cl-] (the full database is covered by the C08 step queries)",
     "a string obtained by corrupting an abstract molecule (e.g. 'q[H]') is not a molecule in the world",
 ]
@@ -97,7 +98,7 @@ def setup_world(PART, a: Dict[str, Any]):
             return False
         if sum(comp.values()) < 1:
             return False  # a molecule has at least one atom
-        W.tok[t] = Tok(comp, qv, True)
+        W.tok[t] = Tok(comp, qv, t not in (PART.get("invalid") or ()))
     for al, base in ALIAS.items():
         if base in W.tok:
             W.tok[al] = W.tok[base]  # same molecule, other spelling: same composition, charge, validity
@@ -226,7 +227,7 @@ def curated_ids(nonunit_only=False):
 BOUNDS_PIPE = [
     "rows: 1 or 2 reactions per run; per side <= 3 molecules; abstract molecules j,q,w,x with element counts 0..K (K=2 unless the partition says otherwise) over E (E={C,H} or {C,H,O}), at least one atom, charge -1..1",
     "merge-result molecules jj/ww: same ranges; MCS outcome in 5 classes; functional-group outcome in 8 classes (one per distinct behaviour of the curation code); confidence and threshold in {0, 1/4, 1/2, 3/4, 1} (arbitrary reals are covered by the C13 kernel)",
-    "real marker molecules in the shapes: O, [H][H], OO (their true compositions from RDKit)",
+    "real marker molecules in the shapes: O, [H][H], OO, and the atomic-hydrogen placeholder [H] (their true compositions from RDKit)",
 ]
 OUTSIDE_PIPE = [
     "RDKit itself (parsing, AddHs, canonicalisation, FindMCS, merge chemistry), joblib worker pools, xgboost",
@@ -247,6 +248,7 @@ SHAPES = {
     "j.j>>q": (["j.j>>q"], 2),
     "j>>q.q": (["j>>q.q"], 2),
     "j.w>>q": (["j.w>>q"], 1),
+    "j.[H].[H]>>q": (["j.[H].[H]>>q"], 2),
     "j>>q.w": (["j>>q.w"], 1),
 }
 SHAPES_Q = ["j>>q"]
@@ -282,6 +284,8 @@ def partitions(tier, pid):
             out += _parts_for(sn, (0, 2, 4))
         for sn in SHAPES_Q2:
             out += _parts_for(sn, (0,))
+    if tier != "thorough":
+        out.append(("pipe[j.[H].[H]>>q|m=0,jq=0]", {"shape": ["j.[H].[H]>>q"], "E": ["C", "H"], "K": 2, "fix": {"m1": 0, "jq": 0, "qq": 0}}, "prop"))
     # hydrogen counts up to 4 with carbon fixed: the multiplicity > 1 branches ('.[O]' * n, one template per [O])
     out.append(("pipe[j>>q|H<=4,m=0]", {"shape": ["j>>q"], "E": ["C", "H"], "K": 2, "KH": 4, "fix": {"m1": 0, "jq": 0, "qq": 0, "jC": 1, "qC": 1}}, "prop"))
     # two rows in one batch (id/index plumbing between stages)
